@@ -2,6 +2,8 @@ import BSModel.Proofs.HeapContig
 import BSModel.Proofs.HeapEffects
 import BSModel.Proofs.HeapExtract
 import BSModel.Proofs.HeapLink
+import BSModel.Proofs.HeapSmooth
+import BSModel.Proofs.HeapDecomposeEffect
 /-! # C02 — each editing call has exactly its documented effect on tree shape
 
 The forest is the pair (children lists, parent fields) of the pointer heap. The theorems give the closed form
@@ -167,6 +169,129 @@ theorem insert_soup_effect {h h' : Heap} {p s position : Nat} {ins : List Nat} (
     h'.kids s = [] :=
   BS.Heap.insert_soup_effect hg hp hs hsp hpos hi
 
+/-! ### `smooth()`
+
+`view h t` is the children list of `t` as the property sees it (a plain string — `NavigableString` and its non-Preformatted
+subclasses — by its text, anything else by its identity), `squash` the documented effect on it: every maximal run of
+adjacent plain strings becomes ONE string, the concatenation, and nothing else moves (`Model/HeapSmooth.lean`).
+`idView` / `squashId` are the same with the identity of every child: a child that is not merged stays the same object,
+every merged run is a new one. -/
+
+/-- the two equations that pin `squash` down — a child that is not a plain string separates the list, and a run of plain
+    strings becomes the one string that concatenates them — and: a list without two adjacent plain strings is left alone -/
+theorem squash_characterised :
+    squash [] = [] ∧
+    (∀ (l₁ l₂ : List Item) (k : Nat), squash (l₁ ++ .other k :: l₂) = squash l₁ ++ .other k :: squash l₂) ∧
+    (∀ (v : PStr) (vs : List PStr), squash ((v :: vs).map Item.str) = [.str (v :: vs).flatten]) ∧
+    (∀ l, NoAdjStr l → squash l = l) :=
+  ⟨rfl, squash_split, squash_run, squash_of_noAdj⟩
+
+/-- `squashId` is `squash` once the identities are forgotten; every identity in its result is that of an old child (in
+    which case the child is unchanged) or one allocated by the call -/
+theorem squash_id_refines_squash (n : Nat) (l : List IItem) :
+    (squashId n l).1.map Prod.snd = squash (l.map Prod.snd) ∧ n ≤ (squashId n l).2 ∧
+    (∀ x ∈ (squashId n l).1, x ∈ l ∨ (n ≤ x.1 ∧ x.1 < (squashId n l).2)) :=
+  ⟨squashId_snd n l, squashId_counter n l⟩
+
+/-- **`_smooth_children`** (one tag): afterwards the children of `t` are `squash` of what they were — every maximal run of
+    adjacent plain strings has become one string, the concatenation, everything else is where it was; the forest is still
+    consistent; no other children list has changed; no existing object has changed class or text; everything allocated is a
+    plain string; the only existing objects whose parent changed are plain strings that were children of `t` (the merged
+    ones: they come back detached) -/
+theorem smooth_children_effect {h h' : Heap} {t : Nat} (hg : Good2 h) (hs : smoothChildren h t = .ok h') :
+    view h' t = squash (view h t) ∧ Good2 h' ∧
+    (∀ q, q ≠ t → h'.kids q = h.kids q ∧ view h' q = view h q) ∧
+    (∀ k, k < h.next → h'.kind k = h.kind k ∧ h'.val k = h.val k) ∧
+    (∀ k, h.next ≤ k → k < h'.next → h'.kind k = .str) ∧
+    (∀ k, k < h.next → h'.parent k = h.parent k ∨ (h.parent k = some t ∧ h.kind k = .str ∧ h'.parent k = none)) := by
+  obtain ⟨e, hg', fr⟩ := smoothChildren_effect hg hs
+  refine ⟨e, hg', fun q hq => ⟨fr.others q hq, (fr.view_others hg.1 hq).2⟩, fr.old, fr.newStr, ?_⟩
+  intro k hk
+  rcases fr.parent k hk with a | ⟨q, rfl, b⟩
+  · exact Or.inl a
+  · exact Or.inr b
+
+/-- **`_smooth_children`, identities included**: a child that is not part of a run of two or more plain strings is the
+    SAME object afterwards, in the same place; every run is replaced by one NEW object (`squashId`, from the allocation
+    counter of the heap); the allocation counter ends where `squashId` says -/
+theorem smooth_children_exact {h h' : Heap} {t : Nat} (hg : Good2 h) (hs : smoothChildren h t = .ok h') :
+    (idView h' t, h'.next) = squashId h.next (idView h t) :=
+  (smoothChildren_exact hg hs).1
+
+/-- what one can observe of the result without reading `squash`: no two adjacent children are plain strings any more; the
+    text of the plain strings, read in order, is what it was; the children that are not plain strings are the same objects
+    in the same order -/
+theorem smooth_children_observable {h h' : Heap} {t : Nat} (hg : Good2 h) (hs : smoothChildren h t = .ok h') :
+    NoAdjStr (view h' t) ∧ strCat (view h' t) = strCat (view h t) ∧ others (view h' t) = others (view h t) := by
+  rw [(smoothChildren_effect hg hs).1]
+  exact ⟨squash_noAdj _, squash_strCat _, squash_others _⟩
+
+/-- a tag without two adjacent plain strings among its children is not touched at all: the heap is returned as it is -/
+theorem smooth_children_noop {h : Heap} {t : Nat} (hn : NoAdjStr (view h t)) : smoothChildren h t = .ok h :=
+  smoothChildren_noop hn
+
+/-- **`smooth()`, the whole call** ("this tag and every tag beneath it"): for every object `q` of the subtree of `t` (the
+    pre-order walk from `t` before the call) the children of `q` are `squash` of what they were — with identities,
+    `squashId` from some allocation counter at or after the one of the heap; the forest is still consistent; outside the
+    subtree no children list has changed; no existing object has changed class or text; everything allocated is a plain
+    string; the only existing objects whose parent changed are plain strings directly beneath an object of the subtree -/
+theorem smooth_effect {h h' : Heap} {t : Nat} (hg : Good2 h) (hs : smooth h t = .ok h') :
+    Good2 h' ∧
+    (∀ q ∈ docOrder h t, view h' q = squash (view h q)) ∧
+    (∀ q ∈ docOrder h t, ∃ n, h.next ≤ n ∧ idView h' q = (squashId n (idView h q)).1) ∧
+    (∀ q, q ∉ docOrder h t → h'.kids q = h.kids q ∧ view h' q = view h q) ∧
+    (∀ k, k < h.next → h'.kind k = h.kind k ∧ h'.val k = h.val k) ∧
+    (∀ k, h.next ≤ k → k < h'.next → h'.kind k = .str) ∧
+    (∀ k, k < h.next → h'.parent k = h.parent k ∨
+      (∃ q ∈ docOrder h t, h.parent k = some q ∧ h.kind k = .str ∧ h'.parent k = none)) := by
+  obtain ⟨hg', fr, hid, hv⟩ := BS.Heap.smooth_effect hg hs
+  exact ⟨hg', hv, hid, fun q hq => ⟨fr.others q hq, (fr.view_others hg.1 hq).2⟩, fr.old, fr.newStr, fr.parent⟩
+
+/-- **on a consistent forest `smooth()` never fails**: none of the model's error outcomes (`IndexError`, `ValueError`,
+    `AttributeError` on `None`) can occur, whatever the tag and whatever its subtree -/
+theorem smooth_never_fails {h : Heap} (t : Nat) (hg : Good2 h) : ∃ h', smooth h t = .ok h' :=
+  smooth_total t hg
+
+/-- **`smooth()` is idempotent**: a second call on the result changes nothing at all — the very same heap comes back (no object
+    is allocated, no pointer written) -/
+theorem smooth_idempotent {h h' : Heap} {t : Nat} (hg : Good2 h) (hs : smooth h t = .ok h') : smooth h' t = .ok h' :=
+  BS.Heap.smooth_idempotent hg hs
+
+/-! ### `decompose()` and `clear(decompose=True)`
+
+The model's mark for a destroyed element is `Isolated`: no parent, no children, no sibling and no element links — the state
+the wipe-out loop of `decompose` leaves every element of the subtree in. -/
+
+/-- **decompose()**: the element leaves its parent's children list; every element of its subtree (the pre-order walk from
+    it before the call) is destroyed; every other element keeps its parent and its children list (the parent's list only
+    loses the element); no element changes class or text; nothing is allocated; the forest stays consistent -/
+theorem decompose_effect {h h' : Heap} {x : Nat} (hg : Good2 h) (hd : decompose h x = .ok h') :
+    Good2 h' ∧
+    (∀ m, m ∈ docOrder h x → Isolated h' m) ∧
+    (∀ m, m ∉ docOrder h x →
+      h'.parent m = h.parent m ∧ h'.kids m = if h.parent x = some m then (h.kids m).erase x else h.kids m) ∧
+    h'.kind = h.kind ∧ h'.val = h.val ∧ h'.next = h.next := by
+  obtain ⟨a, b, c, d, e, f, _⟩ := BS.Heap.decompose_effect hg hd
+  exact ⟨a, b, c, d, e, f⟩
+
+/-- `decompose()` of anything but a BeautifulSoup object never fails on a consistent forest -/
+theorem decompose_never_fails {h : Heap} {x : Nat} (hg : Good h) (hx : h.kind x ≠ .soup) : ∃ h', decompose h x = .ok h' :=
+  decompose_total hg hx
+
+/-- **clear(decompose=True)**: the tag is left childless and keeps its own place; every element that was beneath it is
+    destroyed; every element outside its subtree keeps its parent and its children list; no element changes class or text;
+    nothing is allocated; the forest stays consistent -/
+theorem clear_decompose_effect {h h' : Heap} {t : Nat} (hg : Good2 h) (hd : clearDecompose h t = .ok h') :
+    Good2 h' ∧ h'.kids t = [] ∧ h'.parent t = h.parent t ∧
+    (∀ m, m ∈ docOrder h t → m ≠ t → Isolated h' m) ∧
+    (∀ m, m ∉ docOrder h t → h'.parent m = h.parent m ∧ h'.kids m = h.kids m) ∧
+    h'.kind = h.kind ∧ h'.val = h.val ∧ h'.next = h.next :=
+  clearDecompose_effect hg hd
+
+/-- `clear(decompose=True)` never fails on a consistent forest -/
+theorem clear_decompose_never_fails {h : Heap} (t : Nat) (hg : Good2 h) : ∃ h', clearDecompose h t = .ok h' :=
+  clearDecompose_total t hg
+
 /-! ### negative positions: `insert` reads its position the way `list.insert` does -/
 
 /-- a non-negative position is itself -/
@@ -216,6 +341,36 @@ def wFive : Except Err Heap :=
   run (Heap.init [.tag, .tag, .tag, .tag, .tag, .tag])
     [.append 0 (.node 1), .append 0 (.node 2), .append 0 (.node 3), .append 5 (.node 4)]
 example : (wFive.bind fun h => (wrap h 2 5).map (fun h => (h.kids 0, h.kids 5))).toOption = some ([1, 5, 3], [4, 2]) := by decide
+
+/-! non-vacuity for `smooth`: `t0` with children `[s1, s2, c3, s4, s5, s6, t7]` (`c3` a Comment), `t7` with children `[s8, s9]`.
+    One pass over `t0`: the runs `s1 s2` and `s4 s5 s6` become one string each (the second by two merges from the right: object
+    8 = `s5+s6`, discarded again, then 9 = `s4+8`; then 10 = `s1+s2`); the Comment and the tag stay; `t7` is not touched. The whole
+    call smooths `t7` as well. -/
+def wStr : Except Err Heap :=
+  run (Heap.init [.tag, .str, .str, .pre, .str, .str, .str, .tag, .str, .str])
+    [.append 0 (.node 1), .append 0 (.node 2), .append 0 (.node 3), .append 0 (.node 4), .append 0 (.node 5),
+     .append 0 (.node 6), .append 0 (.node 7), .append 7 (.node 8), .append 7 (.node 9)]
+example : (wStr.map fun h => (view h 0, view h 7)).toOption
+    = some ([.str [1], .str [2], .other 3, .str [4], .str [5], .str [6], .other 7], [.str [8], .str [9]]) := by decide
+example : (wStr.bind fun h => (smoothChildren h 0).map (fun h' => (view h' 0, h'.kids 0, h'.kids 7, h'.next))).toOption
+    = some ([.str [1, 2], .other 3, .str [4, 5, 6], .other 7], [12, 3, 11, 7], [8, 9], 13) := by decide
+example : (wStr.map fun h => squashId h.next (idView h 0)).toOption
+    = some ([(12, .str [1, 2]), (3, .other 3), (11, .str [4, 5, 6]), (7, .other 7)], 13) := by decide
+example : (wStr.bind fun h => (smooth h 0).map (fun h' => (view h' 0, view h' 7, h'.parent 1, h'.parent 12))).toOption
+    = some ([.str [1, 2], .other 3, .str [4, 5, 6], .other 7], [.str [8, 9]], none, some 0) := by decide
+example : (wStr.bind fun h => (smooth h 0).bind fun h' => (smooth h' 0).map (fun h'' => (h''.next, h''.kids 0, h''.kids 7))).toOption
+    = some (14, [12, 3, 11, 7], [13]) := by decide
+/-! non-vacuity for `decompose` / `clear(decompose=True)`: `t0` with children `[t1, s4]`, `t1` with children `[t2, s3]` -/
+def wDeep : Except Err Heap :=
+  run (Heap.init [.tag, .tag, .tag, .str, .str])
+    [.append 0 (.node 1), .append 1 (.node 2), .append 1 (.node 3), .append 0 (.node 4)]
+example : (wDeep.bind fun h => (decompose h 1).map (fun h' => (h'.kids 0, h'.kids 1, h'.parent 1, h'.parent 4))).toOption
+    = some ([4], [], none, some 0) := by decide
+example : (wDeep.bind fun h => (decompose h 1).map (fun h' => (h'.parent 2, h'.parent 3, h'.ne 2, h'.kids 2))).toOption
+    = some (none, none, none, []) := by decide
+example : (wDeep.bind fun h => (clearDecompose h 0).map (fun h' => (h'.kids 0, h'.kids 1, h'.parent 2, h'.parent 4))).toOption
+    = some ([], [], none, none) := by decide
+example : (wDeep.map fun h => docOrder h 1).toOption = some [1, 2, 3] := by decide
 
 /-! ### witness: the slot arithmetic before the repair breaks contiguity
 
